@@ -23,14 +23,16 @@ var (
 	injBudget   int
 	inInjection bool
 	yieldCount  int
+	yieldCounts = map[string]int{}
 )
 
 func init() {
-	rlog.VerifYield = func(prefix, message string) { yieldPoint("log") }
+	rlog.VerifYield = func(prefix, message string) { yieldPoint("log:" + message) }
 }
 
 func resetInjection() {
 	events, injBudget, inInjection, yieldCount = nil, 0, false, 0
+	yieldCounts = map[string]int{}
 }
 
 func registerEvent(name string, fn func()) {
@@ -56,14 +58,24 @@ func yieldPoint(kind string) {
 		return
 	}
 	yieldCount++
+	yieldCounts[kind]++
 	var ev *eventRec
-	if pos < len(rf.Inputs) {
-		v := rf.Inputs[pos]
-		if v.Kind == "choose" && strings.HasPrefix(v.Label, "inject:") && int(v.Int) == yieldCount {
-			name := strings.TrimPrefix(v.Label, "inject:")
-			if i := strings.Index(name, "@"); i >= 0 {
-				name = name[:i]
+	// the next scheduled injection (the first inject entry not yet consumed), wherever it
+	// sits in the input list: other goroutines may consume ordinary inputs meanwhile
+	for ip := pos; ip < len(rf.Inputs) && ev == nil; ip++ {
+		v := rf.Inputs[ip]
+		if v.Kind != "choose" || !strings.HasPrefix(v.Label, "inject:") {
+			if ip == pos {
+				continue
 			}
+			continue
+		}
+		name := strings.TrimPrefix(v.Label, "inject:")
+		key := ""
+		if i := strings.Index(name, "@"); i >= 0 {
+			name, key = name[:i], name[i+1:]
+		}
+		if key == kind && int(v.Int) == yieldCounts[kind] {
 			for _, e := range events {
 				if e.name == name && !e.fired {
 					ev = e
@@ -71,12 +83,13 @@ func yieldPoint(kind string) {
 				}
 			}
 			if ev != nil {
-				pos++
+				rf.Inputs = append(rf.Inputs[:ip:ip], rf.Inputs[ip+1:]...)
 				ev.fired = true
 				injBudget--
 				inInjection = true
 			}
 		}
+		break // only the first pending injection entry is eligible
 	}
 	mu.Unlock()
 	if ev != nil {
